@@ -47,6 +47,9 @@ void recreate_seq(int k);
 bool dw_alive(int d);
 void watch(int d, int ms, int eid, int nseq, const int* seqs);
 void unwatch(int d, int ms);
+// { REQUIRE_DESTRUCTION(obj)[.IN_SEQUENCE(s)]; [delete obj;] } inside one C++ scope (the non-NAMED macro).
+// step(kind): 0 = requirement created, 1 = object destroyed inside the scope, 2 = scope left (requirement destroyed)
+void scoped_dw_run(int d, int nseq, int s0, bool kill_inside, void (*step)(void* ctx, int kind), void* ctx);
 bool mon_alive(int d, int ms);
 bool mon_satisfied(int d, int ms);
 bool mon_saturated(int d, int ms);
